@@ -1,8 +1,9 @@
 """C16 — time evolution reaches exp(-iHt).
 
 Three ingredients (see tools/README.md):
-  * kernel step: theorems of lean/QV/Props/C16.lean, C16b.lean (model:
-    lean/QV/Model/Evolution.lean; proofs lean/QV/Proofs/Evolution.lean, EvolutionExp.lean);
+  * kernel step: theorems of lean/QV/Props/C16.lean, C16b.lean, C16c.lean (model:
+    lean/QV/Model/Evolution.lean; proofs lean/QV/Proofs/Evolution.lean, EvolutionExp.lean,
+    EvolutionOrder.lean, EvolutionBound.lean);
   * correspondence (driver lean/DriverC16.lean), exact Gaussian-integer data:
       - the real `TermGroup.from_terms`, `TermGroup.term`, `TermGroup.to_term(coefficients)`
         (hence `HamiltonianTerm.merge`) on lists of raw `HamiltonianTerm`s with arbitrary
@@ -788,6 +789,78 @@ def trotter_search(ctx):
 
 
 # ---------------------------------------------------------------------------
+# direct search 1b: the PROVED error bound of the Trotter step, evaluated on the real code
+
+
+def rem3(x):
+    """e^x - 1 - x - x^2/2 (QV.Evo.rem3), series for small x to avoid cancellation."""
+    if x < 0.5:
+        return sum(x**k / math.factorial(k) for k in range(3, 25))
+    return math.exp(x) - 1 - x - x * x / 2
+
+
+def opnorm_inf(M):
+    return float(np.abs(np.asarray(M)).sum(axis=1).max())
+
+
+def trotter_bound_search(ctx):
+    """`T16_trotter_error_bound_of_le`: for EVERY dt, ‖S(dt) − exp(−i dt H0)‖_∞ ≤ 2 r3(|dt| L) with
+    L = Σ|c_m| over the non-constant Pauli monomials (H0 = H without its constant, which the
+    circuit drops; a circuit keeping it as a global phase is accepted as well)."""
+    rng = ctx.rng
+    ok = True
+    N = 40 if ctx.thorough else 16
+    fams = []
+    for k in range(N):
+        n = rng.randint(2, 4)
+        ms, const = rand_poly(rng, n, rng.randint(2, 7), commuting=(True if k % 5 == 4 else False), integer=False)
+        fams.append((n, ms, const))
+    # nested / trailing-child shapes (the merge path) with non-commuting partners
+    for n, ms, const in (
+        (3, [(0.7, ((0, "Z"), (1, "Z"), (2, "Z"))), (-0.4, ((2, "X"),)), (0.3, ((1, "Y"), (2, "Z")))], 0.25),
+        (3, [(0.5, ((0, "X"), (1, "Y"), (2, "Z"))), (0.6, ((1, "Y"), (2, "X"))), (-0.2, ((1, "Z"),))], 0.0),
+        (4, [(0.4, ((0, "X"), (2, "Y"), (3, "Z"))), (0.8, ((3, "X"),)), (-0.5, ((2, "Z"), (3, "Z"))), (0.3, ((1, "Y"),))], -1.0),
+    ):
+        fams.append((n, ms, const))
+    for n, ms, const in fams:
+        L = sum(abs(c) for c, _ in ms)
+        if L == 0:
+            continue
+        H0 = poly_matrix(ms, 0.0, n)
+        for x in (0.05, 0.3, 1.0, -0.6):
+            dt = x / L
+            ctx.case(("trot-bound", poly_src(ms, const), dt))
+            ctx.stat("trotter:proved-bound")
+            bound = 2 * rem3(abs(dt) * L) + 1e-9
+            src = PRE + (
+                "import math\n"
+                f"n = {n}; dt = {dt!r}; const = {const!r}\nh = SymbolicHamiltonian({poly_src(ms, const)}, nqubits=n)\n"
+                f"H0 = sum(MONO(c_, ops, n) for c_, ops in {ms!r})\nL = {L!r}\n"
+                "x = abs(dt) * L\nr3 = sum(x ** k / math.factorial(k) for k in range(3, 40))\n"
+                "U = np.asarray(h.circuit(dt).unitary()); E0 = sla.expm(-1j * dt * H0)\n"
+                "nrm = lambda M: float(np.abs(M).sum(axis=1).max())\n"
+                "d = min(nrm(U - E0), nrm(U - np.exp(-1j * dt * const) * E0))\n"
+                "print('inf-operator-norm distance', d, 'proved bound 2 r3(|dt| L) =', 2 * r3)\n"
+                "sys.exit(0 if d <= 2 * r3 + 1e-9 else 1)\n")
+            try:
+                h = sym_ham(ms, const, n)
+                U = np.asarray(h.circuit(dt).unitary())
+                E0 = sla.expm(-1j * dt * H0)
+                d = min(opnorm_inf(U - E0), opnorm_inf(U - np.exp(-1j * dt * const) * E0))
+            except Exception as ex:  # noqa: BLE001
+                ok = False
+                fail(ctx, "trotter:raises", f"circuit({dt}) of {poly_src(ms, const)} raises {type(ex).__name__}: {ex}", src, broken=["C16_search_trotter_bound"])
+                continue
+            if not d <= bound:
+                ok = False
+                fail(ctx, "trotter:proved-bound",
+                     f"{poly_src(ms, const)} (n={n}): ‖circuit({dt}).unitary() − exp(−i dt H)‖_∞ = {d:.3e} exceeds the proved bound 2·r3(|dt|·Σ|c|) = {bound:.3e} "
+                     "(T16_trotter_error_bound_of_le holds for every symmetric product of exponentials of terms summing to H)",
+                     src, expected=f"<= {bound:.3e}", observed=d, broken=["C16_search_trotter_bound"])
+    ctx.ob("C16_search_trotter_bound", ok, "search", "" if ok else "see failing inputs")
+
+
+# ---------------------------------------------------------------------------
 # direct search 2: StateEvolution with every solver
 
 
@@ -1360,7 +1433,7 @@ def run(ctx):
     build_and_audit(ctx, PROP, modules, theorems)
     ctx.trusted += [
         "scipy.linalg.expm is an oracle meaning NormedSpace.exp (its values are compared with the model's merged matrices through expm itself)",
-        "the analytic bound ‖S(dt) − exp(−i dt H)‖ = O(dt³) for non-commuting terms and the global convergence orders are NOT proved (def TrotterThirdOrder); they are measured on the real code on every run (error ratio under dt halving)",
+        "the local bound ‖S(dt) − exp(−i dt H)‖ ≤ 2 r3(|dt| Σ‖h_j‖) is proved for every term list (C16c: T16_trotter_error_bound, TrotterThirdOrder_proved) and evaluated on the real circuits; the GLOBAL convergence orders of the solvers over many steps are not proved: they are measured on the real code on every run (error ratio under dt halving)",
         "Lean's Float is IEEE binary64 like Python's float (the kernel evaluates it through Lean's software model; the driver through the hardware)",
     ]
     ctx.notes.append(
@@ -1372,6 +1445,7 @@ def run(ctx):
     corr_symbolic(ctx)
     steps_suite(ctx)
     trotter_search(ctx)
+    trotter_bound_search(ctx)
     evolution_search(ctx)
     history_search(ctx)
     adiabatic_search(ctx)
